@@ -3,12 +3,12 @@ module verif/harness
 go 1.21
 
 require (
+	github.com/asticode/go-astikit v0.20.0
 	github.com/asticode/go-astisub v0.0.0
 	golang.org/x/text v0.3.2
 )
 
 require (
-	github.com/asticode/go-astikit v0.20.0 // indirect
 	github.com/asticode/go-astits v1.8.0 // indirect
 	golang.org/x/net v0.0.0-20200904194848-62affa334b73 // indirect
 )
